@@ -172,11 +172,11 @@ impl FsmExecutor {
 
     /// Shutdown of all FSMs and IO-Processors.
     pub fn shutdown(&mut self) {
-        let mut guard = self.state.lock().unwrap();
-        while !guard.processors.is_empty() {
-            if let Some(pp) = guard.processors.pop() {
-                pp.lock().unwrap().shutdown();
-            }
+        // The executor state is released before a processor is locked: a session that sends an
+        // event holds the processor and then needs the executor state.
+        let mut processors = std::mem::take(&mut self.state.lock().unwrap().processors);
+        while let Some(pp) = processors.pop() {
+            pp.lock().unwrap().shutdown();
         }
     }
 
